@@ -38,6 +38,10 @@ static int g_threaded = 0;            /* tsched: one scheduler connection per th
 static __thread int t_sock = -1;
 static char g_sockpath[108];
 static long g_kill_at = -1;
+static long g_fail_at = -1;           /* inject: the k-th mutating call FAILS with g_fail_errno instead of running */
+static int g_fail_errno = 28;         /* ENOSPC */
+static __thread int t_fail = 0;
+static long vshim_fail(void) { t_fail = 0; errno = g_fail_errno; return -1; }
 static long g_counter = 0;
 static char g_roots[8][PATH_MAX];
 static int g_nroots = 0;
@@ -160,6 +164,10 @@ static void init_once(void) {
         if (g_logfd < 0) return;
         const char *k = getenv("VSHIM_KILL_AT");
         g_kill_at = (k && !strcmp(m, "inject")) ? atol(k) : -1;
+        const char *fa = getenv("VSHIM_FAIL_AT");
+        g_fail_at = (fa && !strcmp(m, "inject")) ? atol(fa) : -1;
+        const char *fe = getenv("VSHIM_FAIL_ERRNO");
+        if (fe) g_fail_errno = atoi(fe);
         g_mode = !strcmp(m, "inject") ? M_INJECT : M_LOG;
     } else if (!strcmp(m, "tsched")) {
         /* thread-level control of one `copia sync …` process: every thread announces its calls on its own connection */
@@ -225,7 +233,9 @@ static void mut_event(const char *call, const char *p1, const char *p2, long siz
     esc(p1 ? p1 : "", e1, sizeof e1);
     esc(p2 ? p2 : "", e2, sizeof e2);
     int kill_now = (g_mode == M_INJECT && n == g_kill_at);
-    int l = snprintf(line, sizeof line, "%ld\t%ld\t%s\t%s\t%s\t%ld\t%ld\t%s\n", n, (long)syscall(SYS_gettid), call, e1, e2, size, flags, kill_now ? "KILLED-BEFORE" : "");
+    int fail_now = (g_mode == M_INJECT && n == g_fail_at);
+    if (fail_now) t_fail = 1;
+    int l = snprintf(line, sizeof line, "%ld\t%ld\t%s\t%s\t%s\t%ld\t%ld\t%s\n", n, (long)syscall(SYS_gettid), call, e1, e2, size, flags, kill_now ? "KILLED-BEFORE" : fail_now ? "FAILED" : "");
     raw_write(g_logfd, line, (size_t)l);
     if (kill_now) {
         syscall(SYS_kill, getpid(), SIGKILL);
@@ -283,7 +293,7 @@ int open(const char *path, int flags, ...) {
     if (flags & (O_CREAT | O_TMPFILE)) { va_list ap; va_start(ap, flags); mode = va_arg(ap, mode_t); va_end(ap); }
     ENTER();
     PATH_EVENT("open", AT_FDCWD, path, 0, NULL, 0, flags, open_is_mut(flags));
-    int r = real_open(path, flags, mode);
+    int r = t_fail ? (int)vshim_fail() : real_open(path, flags, mode);
     PATH_DONE("open", r);
     LEAVE();
     return r;
@@ -294,7 +304,7 @@ int open64(const char *path, int flags, ...) {
     if (flags & (O_CREAT | O_TMPFILE)) { va_list ap; va_start(ap, flags); mode = va_arg(ap, mode_t); va_end(ap); }
     ENTER();
     PATH_EVENT("open", AT_FDCWD, path, 0, NULL, 0, flags, open_is_mut(flags));
-    int r = real_open64(path, flags, mode);
+    int r = t_fail ? (int)vshim_fail() : real_open64(path, flags, mode);
     PATH_DONE("open", r);
     LEAVE();
     return r;
@@ -305,7 +315,7 @@ int openat(int dirfd, const char *path, int flags, ...) {
     if (flags & (O_CREAT | O_TMPFILE)) { va_list ap; va_start(ap, flags); mode = va_arg(ap, mode_t); va_end(ap); }
     ENTER();
     PATH_EVENT("open", dirfd, path, 0, NULL, 0, flags, open_is_mut(flags));
-    int r = real_openat(dirfd, path, flags, mode);
+    int r = t_fail ? (int)vshim_fail() : real_openat(dirfd, path, flags, mode);
     PATH_DONE("open", r);
     LEAVE();
     return r;
@@ -316,7 +326,7 @@ int openat64(int dirfd, const char *path, int flags, ...) {
     if (flags & (O_CREAT | O_TMPFILE)) { va_list ap; va_start(ap, flags); mode = va_arg(ap, mode_t); va_end(ap); }
     ENTER();
     PATH_EVENT("open", dirfd, path, 0, NULL, 0, flags, open_is_mut(flags));
-    int r = real_openat64(dirfd, path, flags, mode);
+    int r = t_fail ? (int)vshim_fail() : real_openat64(dirfd, path, flags, mode);
     PATH_DONE("open", r);
     LEAVE();
     return r;
@@ -325,7 +335,7 @@ int creat(const char *path, mode_t mode) {
     REAL(creat);
     ENTER();
     PATH_EVENT("open", AT_FDCWD, path, 0, NULL, 0, O_CREAT | O_WRONLY | O_TRUNC, 1);
-    int r = real_creat(path, mode);
+    int r = t_fail ? (int)vshim_fail() : real_creat(path, mode);
     PATH_DONE("open", r);
     LEAVE();
     return r;
@@ -335,7 +345,7 @@ ssize_t write(int fd, const void *buf, size_t n) {
     REAL(write);
     ENTER();
     FD_EVENT("write", fd, (long)n, 0, 1, 1);
-    ssize_t r = real_write(fd, buf, n);
+    ssize_t r = t_fail ? (ssize_t)vshim_fail() : real_write(fd, buf, n);
     FD_DONE("write", r);
     LEAVE();
     return r;
@@ -346,7 +356,7 @@ ssize_t writev(int fd, const struct iovec *iov, int cnt) {
     long tot = 0;
     for (int i = 0; i < cnt; i++) tot += (long)iov[i].iov_len;
     FD_EVENT("write", fd, tot, 0, 1, 1);
-    ssize_t r = real_writev(fd, iov, cnt);
+    ssize_t r = t_fail ? (ssize_t)vshim_fail() : real_writev(fd, iov, cnt);
     FD_DONE("write", r);
     LEAVE();
     return r;
@@ -355,7 +365,7 @@ ssize_t pwrite64(int fd, const void *buf, size_t n, off64_t off) {
     REAL(pwrite64);
     ENTER();
     FD_EVENT("write", fd, (long)n, 0, 1, 0);
-    ssize_t r = real_pwrite64(fd, buf, n, off);
+    ssize_t r = t_fail ? (ssize_t)vshim_fail() : real_pwrite64(fd, buf, n, off);
     FD_DONE("write", r);
     LEAVE();
     return r;
@@ -364,7 +374,7 @@ ssize_t pwrite(int fd, const void *buf, size_t n, off_t off) {
     REAL(pwrite);
     ENTER();
     FD_EVENT("write", fd, (long)n, 0, 1, 0);
-    ssize_t r = real_pwrite(fd, buf, n, off);
+    ssize_t r = t_fail ? (ssize_t)vshim_fail() : real_pwrite(fd, buf, n, off);
     FD_DONE("write", r);
     LEAVE();
     return r;
@@ -395,7 +405,7 @@ int fsync(int fd) {
     REAL(fsync);
     ENTER();
     FD_EVENT("fsync", fd, 0, 0, 1, 0);
-    int r = real_fsync(fd);
+    int r = t_fail ? (int)vshim_fail() : real_fsync(fd);
     FD_DONE("fsync", r);
     LEAVE();
     return r;
@@ -404,7 +414,7 @@ int fdatasync(int fd) {
     REAL(fdatasync);
     ENTER();
     FD_EVENT("fsync", fd, 0, 0, 1, 0);
-    int r = real_fdatasync(fd);
+    int r = t_fail ? (int)vshim_fail() : real_fdatasync(fd);
     FD_DONE("fsync", r);
     LEAVE();
     return r;
@@ -413,7 +423,7 @@ int ftruncate(int fd, off_t len) {
     REAL(ftruncate);
     ENTER();
     FD_EVENT("ftruncate", fd, (long)len, 0, 1, 0);
-    int r = real_ftruncate(fd, len);
+    int r = t_fail ? (int)vshim_fail() : real_ftruncate(fd, len);
     FD_DONE("ftruncate", r);
     LEAVE();
     return r;
@@ -422,7 +432,7 @@ int ftruncate64(int fd, off64_t len) {
     REAL(ftruncate64);
     ENTER();
     FD_EVENT("ftruncate", fd, (long)len, 0, 1, 0);
-    int r = real_ftruncate64(fd, len);
+    int r = t_fail ? (int)vshim_fail() : real_ftruncate64(fd, len);
     FD_DONE("ftruncate", r);
     LEAVE();
     return r;
@@ -431,7 +441,7 @@ int fchmod(int fd, mode_t m) {
     REAL(fchmod);
     ENTER();
     FD_EVENT("fchmod", fd, 0, (long)m, 1, 0);
-    int r = real_fchmod(fd, m);
+    int r = t_fail ? (int)vshim_fail() : real_fchmod(fd, m);
     FD_DONE("fchmod", r);
     LEAVE();
     return r;
@@ -440,7 +450,7 @@ int futimens(int fd, const struct timespec t[2]) {
     REAL(futimens);
     ENTER();
     FD_EVENT("futimens", fd, t ? (long)t[1].tv_sec : -1, 0, 1, 0);
-    int r = real_futimens(fd, t);
+    int r = t_fail ? (int)vshim_fail() : real_futimens(fd, t);
     FD_DONE("futimens", r);
     LEAVE();
     return r;
@@ -450,13 +460,13 @@ int utimensat(int dirfd, const char *path, const struct timespec t[2], int flags
     ENTER();
     if (path == NULL) {
         FD_EVENT("futimens", dirfd, t ? (long)t[1].tv_sec : -1, 0, 1, 0);
-        int r = real_utimensat(dirfd, path, t, flags);
+        int r = t_fail ? (int)vshim_fail() : real_utimensat(dirfd, path, t, flags);
         FD_DONE("futimens", r);
         LEAVE();
         return r;
     }
     PATH_EVENT("utimens", dirfd, path, 0, NULL, t ? (long)t[1].tv_sec : -1, 0, 1);
-    int r = real_utimensat(dirfd, path, t, flags);
+    int r = t_fail ? (int)vshim_fail() : real_utimensat(dirfd, path, t, flags);
     PATH_DONE("utimens", r);
     LEAVE();
     return r;
@@ -475,7 +485,7 @@ ssize_t copy_file_range(int in, off64_t *oi, int out, off64_t *oo, size_t n, uns
     ENTER();
     if (active_) sched_want_input_if_stdin(in);
     FD_EVENT("copy_file_range", out, (long)n, 0, 1, 0);
-    ssize_t r = real_copy_file_range(in, oi, out, oo, n, fl);
+    ssize_t r = t_fail ? (ssize_t)vshim_fail() : real_copy_file_range(in, oi, out, oo, n, fl);
     if (active_ && rel_ && (g_mode == M_LOG || g_mode == M_INJECT) && r >= 0) {
         char l[96];
         int k = snprintf(l, sizeof l, "=\t\tcopied\t\t\t%ld\t0\t\n", (long)r);
@@ -490,7 +500,7 @@ ssize_t sendfile64(int out, int in, off64_t *off, size_t n) {
     if (!real_sf) real_sf = dlsym(RTLD_NEXT, "sendfile64");
     ENTER();
     FD_EVENT("sendfile", out, (long)n, 0, 1, 1);
-    ssize_t r = real_sf(out, in, off, n);
+    ssize_t r = t_fail ? (ssize_t)vshim_fail() : real_sf(out, in, off, n);
     FD_DONE("sendfile", r);
     LEAVE();
     return r;
@@ -500,7 +510,7 @@ ssize_t sendfile(int out, int in, off_t *off, size_t n) {
     if (!real_sf) real_sf = dlsym(RTLD_NEXT, "sendfile");
     ENTER();
     FD_EVENT("sendfile", out, (long)n, 0, 1, 1);
-    ssize_t r = real_sf(out, in, off, n);
+    ssize_t r = t_fail ? (ssize_t)vshim_fail() : real_sf(out, in, off, n);
     FD_DONE("sendfile", r);
     LEAVE();
     return r;
@@ -510,7 +520,7 @@ ssize_t splice(int in, off64_t *oi, int out, off64_t *oo, size_t n, unsigned fl)
     ENTER();
     if (active_) sched_want_input_if_stdin(in);
     FD_EVENT("splice", out, (long)n, 0, 1, 1);
-    ssize_t r = real_splice(in, oi, out, oo, n, fl);
+    ssize_t r = t_fail ? (ssize_t)vshim_fail() : real_splice(in, oi, out, oo, n, fl);
     FD_DONE("splice", r);
     LEAVE();
     return r;
@@ -520,7 +530,7 @@ int rename(const char *a, const char *b) {
     REAL(rename);
     ENTER();
     PATH_EVENT("rename", AT_FDCWD, a, AT_FDCWD, b, 0, 0, 1);
-    int r = real_rename(a, b);
+    int r = t_fail ? (int)vshim_fail() : real_rename(a, b);
     PATH_DONE("rename", r);
     LEAVE();
     return r;
@@ -529,7 +539,7 @@ int renameat(int d1, const char *a, int d2, const char *b) {
     REAL(renameat);
     ENTER();
     PATH_EVENT("rename", d1, a, d2, b, 0, 0, 1);
-    int r = real_renameat(d1, a, d2, b);
+    int r = t_fail ? (int)vshim_fail() : real_renameat(d1, a, d2, b);
     PATH_DONE("rename", r);
     LEAVE();
     return r;
@@ -538,7 +548,7 @@ int renameat2(int d1, const char *a, int d2, const char *b, unsigned fl) {
     REAL(renameat2);
     ENTER();
     PATH_EVENT("rename", d1, a, d2, b, 0, (long)fl, 1);
-    int r = real_renameat2(d1, a, d2, b, fl);
+    int r = t_fail ? (int)vshim_fail() : real_renameat2(d1, a, d2, b, fl);
     PATH_DONE("rename", r);
     LEAVE();
     return r;
@@ -547,7 +557,7 @@ int unlink(const char *p) {
     REAL(unlink);
     ENTER();
     PATH_EVENT("unlink", AT_FDCWD, p, 0, NULL, 0, 0, 1);
-    int r = real_unlink(p);
+    int r = t_fail ? (int)vshim_fail() : real_unlink(p);
     PATH_DONE("unlink", r);
     LEAVE();
     return r;
@@ -556,7 +566,7 @@ int unlinkat(int d, const char *p, int fl) {
     REAL(unlinkat);
     ENTER();
     PATH_EVENT("unlink", d, p, 0, NULL, 0, (long)fl, 1);
-    int r = real_unlinkat(d, p, fl);
+    int r = t_fail ? (int)vshim_fail() : real_unlinkat(d, p, fl);
     PATH_DONE("unlink", r);
     LEAVE();
     return r;
@@ -565,7 +575,7 @@ int rmdir(const char *p) {
     REAL(rmdir);
     ENTER();
     PATH_EVENT("rmdir", AT_FDCWD, p, 0, NULL, 0, 0, 1);
-    int r = real_rmdir(p);
+    int r = t_fail ? (int)vshim_fail() : real_rmdir(p);
     PATH_DONE("rmdir", r);
     LEAVE();
     return r;
@@ -574,7 +584,7 @@ int mkdir(const char *p, mode_t m) {
     REAL(mkdir);
     ENTER();
     PATH_EVENT("mkdir", AT_FDCWD, p, 0, NULL, 0, (long)m, 1);
-    int r = real_mkdir(p, m);
+    int r = t_fail ? (int)vshim_fail() : real_mkdir(p, m);
     PATH_DONE("mkdir", r);
     LEAVE();
     return r;
@@ -583,7 +593,7 @@ int mkdirat(int d, const char *p, mode_t m) {
     REAL(mkdirat);
     ENTER();
     PATH_EVENT("mkdir", d, p, 0, NULL, 0, (long)m, 1);
-    int r = real_mkdirat(d, p, m);
+    int r = t_fail ? (int)vshim_fail() : real_mkdirat(d, p, m);
     PATH_DONE("mkdir", r);
     LEAVE();
     return r;
@@ -592,7 +602,7 @@ int truncate(const char *p, off_t len) {
     REAL(truncate);
     ENTER();
     PATH_EVENT("truncate", AT_FDCWD, p, 0, NULL, (long)len, 0, 1);
-    int r = real_truncate(p, len);
+    int r = t_fail ? (int)vshim_fail() : real_truncate(p, len);
     PATH_DONE("truncate", r);
     LEAVE();
     return r;
@@ -601,7 +611,7 @@ int chmod(const char *p, mode_t m) {
     REAL(chmod);
     ENTER();
     PATH_EVENT("chmod", AT_FDCWD, p, 0, NULL, 0, (long)m, 1);
-    int r = real_chmod(p, m);
+    int r = t_fail ? (int)vshim_fail() : real_chmod(p, m);
     PATH_DONE("chmod", r);
     LEAVE();
     return r;
@@ -610,7 +620,7 @@ int link(const char *a, const char *b) {
     REAL(link);
     ENTER();
     PATH_EVENT("link", AT_FDCWD, a, AT_FDCWD, b, 0, 0, 1);
-    int r = real_link(a, b);
+    int r = t_fail ? (int)vshim_fail() : real_link(a, b);
     PATH_DONE("link", r);
     LEAVE();
     return r;
@@ -619,7 +629,7 @@ int symlink(const char *a, const char *b) {
     REAL(symlink);
     ENTER();
     PATH_EVENT("symlink", AT_FDCWD, b, 0, NULL, 0, 0, 1);
-    int r = real_symlink(a, b);
+    int r = t_fail ? (int)vshim_fail() : real_symlink(a, b);
     PATH_DONE("symlink", r);
     LEAVE();
     return r;
